@@ -67,12 +67,17 @@ pub fn structured(rng: &mut Rng) -> Vec<u8> {
         2 => format!("HTTP://{}.COM/{}", rng.pick(WORDS).to_uppercase(), n(rng, 0, 8)),
         3 => format!("mailto:{}@{}.{}", rng.pick(WORDS), rng.pick(WORDS), rng.pick(WORDS)),
         4 => if rng.chance(1, 2) { format!("tel:+{}", n(rng, 8, 6)) } else { format!("+{}-{}-{}-{}", n(rng, 1, 1), n(rng, 3, 1), n(rng, 3, 1), n(rng, 4, 1)) },
-        5 => match rng.below(5) {
+        5 => match rng.below(7) {
             0 => format!("20{:02}{:02}{:02}", rng.below(40), 1 + rng.below(12), 1 + rng.below(28)),
             1 => format!("20{:02}-{:02}-{:02}", rng.below(40), 1 + rng.below(12), 1 + rng.below(28)),
             2 => format!("20{:02}:{:02}:{:02}:{:02}:{:02}:{:02}", rng.below(40), 1 + rng.below(12), 1 + rng.below(28), rng.below(24), rng.below(60), rng.below(60)),
             3 => format!("{:02}:{:02}:{:02}", rng.below(24), rng.below(60), rng.below(60)),
-            _ => format!("{:02}:{:02}:{:02}:{:02}:{:02}:{:02}", rng.below(100), rng.below(100), rng.below(100), rng.below(100), rng.below(100), rng.below(100)),
+            4 => format!("{:02}:{:02}:{:02}:{:02}:{:02}:{:02}", rng.below(100), rng.below(100), rng.below(100), rng.below(100), rng.below(100), rng.below(100)),
+            _ => {
+                // colon-separated groups of digits, any length (ids, ratios, addresses)
+                let groups = 2 + rng.below(8);
+                (0..groups).map(|_| n(rng, 1, 6)).collect::<Vec<_>>().join(":")
+            }
         },
         6 => format!("BEGIN:VCARD\nVERSION:3.0\nN:Doe;John;;;\nFN:John Doe\nTEL;TYPE=CELL:+{}\nEMAIL:{}@example.com\nEND:VCARD", n(rng, 11, 1), rng.pick(WORDS)),
         7 => format!("WIFI:T:WPA;S:{};P:{};;", rng.pick(WORDS), n(rng, 8, 8)),
@@ -124,6 +129,10 @@ fn gen_structured(out: &mut Out, rng: &mut Rng, thorough: bool, prop: &str) {
         };
         match prop {
             "C01" | "C02" | "C03" | "C04" | "C06" | "C07" | "C10" | "C15" => out.job(move || build_line(&inp, o)),
+            "C05" => {
+                let e = o.ecl;
+                out.job(move || buildc_line(&inp, e))
+            }
             "C09" => {
                 if inp.len() <= 2900 {
                     out.job(move || classify_line(&inp))
@@ -210,6 +219,13 @@ pub fn buildv_line(mode: usize, ecl: usize, len: usize, forced: Option<usize>) -
     format!("buildv {} {} {} {} => {}", mode, ecl, len, opt(forced), outcome_short(&o))
 }
 
+/// `buildc <hex> <ecl|-> => ok <version> | err E | trap` : everything automatic on real CONTENT (the version must be the
+/// smallest one for the mode the content classifies to — the capacity gate and the classifier have to agree)
+pub fn buildc_line(input: &[u8], ecl: Option<usize>) -> String {
+    let o = build(input, Opts { ecl, mode: None, version: None, mask: Some(0) });
+    format!("buildc {} {} => {}", hex(input), opt(ecl), outcome_short(&o))
+}
+
 /// `buildvh mode ecl len forced ecl0 => …` : `buildv` on a builder that has already built once at level `ecl0`
 pub fn buildvh_line(mode: usize, ecl: usize, len: usize, forced: Option<usize>, ecl0: usize) -> String {
     let input = vec![b'1'; len];
@@ -260,6 +276,12 @@ fn gen_c05(out: &mut Out, rng: &mut Rng, thorough: bool) {
                     }
                     for f in forced {
                         out.job(move || buildv_line(mode, ecl, len, f));
+                    }
+                    // real content of this alphabet at the boundary, everything automatic
+                    if len + 1 >= b && len <= 7089 {
+                        let class = rng.below(4);
+                        let inp = content_class(rng, mode, len, class);
+                        out.job(move || buildc_line(&inp, Some(ecl)));
                     }
                     // the same configuration reached on a builder that has already built at another level
                     if len + 1 >= b {
@@ -1116,6 +1138,7 @@ fn gen_selecth(out: &mut Out, rng: &mut Rng, thorough: bool) {
 fn gen_c11(out: &mut Out, rng: &mut Rng, thorough: bool) {
     crate::unitops::gen_lines(out, rng, thorough);
     crate::unitops::gen_squares(out, rng, thorough);
+    crate::unitops::gen_ratio_steps(out, rng, thorough);
     crate::unitops::gen_aligned(out, rng, thorough, true);
     gen_selecth(out, rng, thorough);
     let caps = caps();
@@ -1281,6 +1304,10 @@ fn gen_c12(out: &mut Out, rng: &mut Rng, thorough: bool) {
             if rng.chance(1, 3) {
                 ops.push(Op::ImageBgColor(svgops::rand_color(rng)));
             }
+        }
+        // a colour setter AFTER the layers it must not affect (a layer given its own colour keeps it)
+        if rng.chance(1, 3) {
+            ops.push(Op::ModuleColor(svgops::rand_color(rng)));
         }
         // shuffle lightly: setters commute except shape order
         if rng.chance(1, 3) && ops.len() > 1 {
